@@ -319,4 +319,4 @@ def eval_case(case):
 
 def parts(tier):
     t = tier == 'thorough'
-    return [Part('molecules', eval_case, strategy=strategy, examples=40000 if t else 2400)]
+    return [Part('molecules', eval_case, strategy=strategy, examples=120000 if t else 2400)]
